@@ -105,8 +105,19 @@ class OddArgsError(Exception):
     args = None
 
 
+class ArgsRaisesError(Exception):
+    """an exception class whose `args` cannot be read"""
+    @property
+    def args(self):
+        raise ZeroDivisionError("args")
+
+
 def hostile(rng):
-    k = rng.randrange(21)
+    k = rng.randrange(23)
+    if k == 21:
+        return {BadStr(): "value of an unprintable key", "plain": 1}
+    if k == 22:
+        return ArgsRaisesError.__new__(ArgsRaisesError)
     if k == 19:
         return BadGetattribute()
     if k == 20:
@@ -154,7 +165,9 @@ def hostile(rng):
     return OD(a=1, b=[2])
 
 
-NAMES = ["a", "b", "c", "d", "e", "f", "val", "items", "self", "_p", "__q", "x1", "data", "cfg", "n", "s"]
+# (among them names that code likes to treat specially: the conventional receiver names, argument packs, credentials)
+NAMES = ["a", "b", "c", "d", "e", "f", "val", "items", "self", "_p", "__q", "x1", "data", "cfg", "n", "s",
+         "cls", "kwargs", "password", "api_token", "this", "args"]
 
 
 def scalar(rng):
